@@ -531,6 +531,17 @@ def middleCore (b lsh : W) (v c : W128) : W × W128 :=
   let out := getDigit128 b dpc
   (lo out, co + getCarry128 b dpc out)
 
+/-- `nfc_mul_pow2_assign(power, x)` of `reference/ntt120/vec_znx_big.rs` (after fix eb1c1ea: rounding right
+shift, as `znx_mul_power_of_two_assign_ref` = `Ref.mulPow2Assign` does for `i64` limbs) -/
+def mulPow2Assign (power : W) (x : W128) : W128 :=
+  if BitVec.slt 0#64 power then rshl128 x (power &&& 0xFFFFFFFF#64)
+  else if BitVec.slt power 0#64 then
+    let k := (-power) &&& 0xFFFFFFFF#64
+    let signBit := rsar128 x 127#64 &&& 1#128
+    let bias := rshl128 1#128 (k - 1#64) - signBit
+    rsar128 (x + bias) k
+  else x
+
 def finalCore (b lsh : W) (r : W) (c : W128) : W :=
   let ri : W128 := r.signExtend 128
   let d := getDigit128 (bLsh b lsh) ri
